@@ -603,6 +603,11 @@ class Client:
         self.io_fired = False
         self.fs_overlay = {}  # path -> text id, files this client has (re)written
         self.blocked_on = None  # SimLock this client waits for
+        self.sw_ok = True  # an eval-breaker poll happened since this client's last step
+        self.prev_code = None
+        self.prev_line = 0
+        self.abort_pending = False
+        self.last_steps = {}  # op kind -> steps of this client's last complete traced op of that kind
         self.finished = False
         self.ops_done = 0
         self.error = None
@@ -718,57 +723,104 @@ class Sched:
         nxt.lock.release()
 
 
+class _CheckLines(dict):
+    """code object -> lines whose bytecode contains an instruction at which CPython
+    (3.12, with the GIL) polls its "eval breaker": the only places where the
+    running thread can lose the GIL or have an asynchronous exception (signal
+    handler, KeyboardInterrupt) delivered.  Calls into Python code are accounted
+    for separately (function entry polls too)."""
+
+    OPS = frozenset(("CALL", "CALL_FUNCTION_EX", "CALL_KW", "JUMP_BACKWARD", "RESUME", "SEND", "YIELD_VALUE", "RETURN_GENERATOR"))
+
+    def __missing__(self, code):
+        import dis
+
+        lines = set()
+        if code is not None:
+            cur = code.co_firstlineno
+            for ins in dis.get_instructions(code):
+                sl = ins.starts_line
+                if sl is not None and sl is not False:
+                    cur = sl if isinstance(sl, int) and not isinstance(sl, bool) else cur
+                if ins.opname in self.OPS and ins.opname != "RESUME":
+                    lines.add(cur)
+        v = frozenset(lines)
+        self[code] = v
+        return v
+
+
 def make_tracers(sim, sched, modes):
     """Global and local trace functions.  A step is one line event in a profiled
     file or one call event in a call-profiled file, counted only while the
-    client is inside an operation and not inside an import."""
+    client is inside an operation and not inside an import.
 
-    def tick(frame):
+    A context switch or an asynchronous abort is delivered at a step only if
+    CPython could really switch threads / run a signal handler there: at
+    function entry, or at a line reached after bytecode that polls the eval
+    breaker (a call, a backward jump) or after any Python-level call.  Two
+    consecutive lines with nothing but loads and stores between them are atomic
+    under the GIL, and the simulator keeps them atomic.  (Injected allocation
+    failures are not bound by this: memory can run out anywhere.)"""
+    checks = _CheckLines()
+
+    def tick(frame, allowed):
         cl = sim.cur
         sim.gstep += 1
         cl.opstep += 1
         if cl.abort_site is not None:
             co = frame.f_code
-            if cl.abort_site[0] in co.co_filename and (cl.abort_site[1] is None or cl.abort_site[1] == co.co_name):
+            if cl.abort_site[0] in co.co_filename.replace(os.sep, "/") and (cl.abort_site[1] is None or cl.abort_site[1] == co.co_name):
                 cl.abort_n -= 1
                 if cl.abort_n <= 0:
                     cl.abort_site = None
-                    cl.abort_delivered = True
-                    _abort_probes(sim, frame)
-                    sim.fire_fault(cl.abort_kind, f"site {os.path.basename(co.co_filename)}:{co.co_name}:{frame.f_lineno}")
-                    raise (SimMemoryError("injected allocation failure") if cl.abort_kind == "alloc_failure" else SimAbort())
+                    cl.abort_pending = True
         elif cl.abort_at and cl.opstep == cl.abort_at:
+            cl.abort_pending = True
+        if cl.abort_pending and (allowed or cl.abort_kind == "alloc_failure"):
+            cl.abort_pending = False
             cl.abort_delivered = True
             co = frame.f_code
             _abort_probes(sim, frame)
-            sim.fire_fault(cl.abort_kind, f"step {os.path.basename(co.co_filename)}:{co.co_name}:{frame.f_lineno}")
+            sim.fire_fault(cl.abort_kind, f"{os.path.basename(co.co_filename)}:{co.co_name}:{frame.f_lineno}")
             raise (SimMemoryError("injected allocation failure") if cl.abort_kind == "alloc_failure" else SimAbort())
         if cl.opstep > sched.max_op_steps or sim.gstep > sched.max_steps:
             raise HarnessError(f"step cap exceeded (op {cl.opstep}, run {sim.gstep})")
         sched.remaining -= 1
-        if sched.remaining <= 0:
+        if sched.remaining <= 0 and allowed:
             sched.switch(frame)
 
     def ltrace(frame, event, arg):
         if event == "line":
             cl = sim.cur
             if cl.in_op and not cl.import_depth:
-                tick(frame)
+                allowed = cl.sw_ok or cl.prev_line in checks[cl.prev_code]
+                cl.sw_ok = False
+                cl.prev_code = frame.f_code
+                cl.prev_line = frame.f_lineno
+                tick(frame, allowed)
         return ltrace
 
     def gtrace(frame, event, arg):
         cl = sim.cur
         if cl is None or not cl.in_op or cl.import_depth:
             return None
+        # a Python function is being entered: its RESUME polls the eval breaker
+        cl.sw_ok = True
         mode = modes[frame.f_code.co_filename]
         if mode == 0:
             return None
-        tick(frame)
-        return ltrace if mode == 2 else None
+        cl.prev_code = None
+        cl.prev_line = 0
+        tick(frame, True)
+        if mode == 2:
+            cl.sw_ok = True  # first line of the new frame
+            return ltrace
+        return None
 
     return gtrace
 
 
+_STEP_GUESS = {"parse": 25000, "read": 3000, "read_file": 3000, "canon": 3000, "serialize": 3500, "write": 1000, "permute": 900}
 _DFA_FUNCS = ("addDFAState", "addDFAEdge", "computeTargetState", "addDFAEdgeIfNeeded")
 
 
@@ -785,6 +837,8 @@ def _abort_probes(sim, frame):
         sim.probe("abort_in_random")
     if fn.endswith(os.path.join("parser", "parser.py")):
         sim.probe("abort_in_listener")
+    if fn.endswith(os.path.join("tree", "Tree.py")):
+        sim.probe("abort_in_tree_walk")
 
 
 # --------------------------------------------------------------------------
@@ -850,6 +904,9 @@ def exec_op(sim, cl, i, traced):
     cl.vals.append(MISSING)
     cl.snaps.append(None)
     cl.opstep = 0
+    cl.sw_ok = True
+    cl.prev_code = None
+    cl.abort_pending = False
     cl.abort_delivered = False
     cl.abort_at = 0
     cl.abort_site = None
@@ -860,6 +917,11 @@ def exec_op(sim, cl, i, traced):
         if "site" in ab:
             cl.abort_site = (ab["site"][0], ab["site"][1])
             cl.abort_n = int(ab.get("n", 1))
+        elif "frac" in ab:
+            # a fraction of the length this client last measured for this kind of
+            # operation (a fixed guess before the first measurement)
+            est = cl.last_steps.get(bkind) or _STEP_GUESS.get(bkind, 3000)
+            cl.abort_at = max(1, int(ab["frac"] * est))
         else:
             cl.abort_at = int(ab["step"])
     if traced:
@@ -962,6 +1024,8 @@ def exec_op(sim, cl, i, traced):
         cl.abort_site = None
     rec["s1"] = sim.gstep
     rec["n"] = cl.opstep
+    if traced and not cl.abort_delivered and cl.opstep:
+        cl.last_steps[bkind] = cl.opstep
 
     if rec["st"] is None:
         if cl.abort_delivered or cl.io_fired:
